@@ -75,6 +75,12 @@ func SelfCheck() error {
 	if i, ok := ReadInt(AppendInt(nil, 7, 0x80, 127, 8), 7); !ok || i.V != 127 || i.Len != 10 {
 		return fmt.Errorf("padded int")
 	}
+	if i, ok := ReadInt(AppendIntWrapped(nil, 4, 0x10, 20, 9, 2), 4); !ok || !i.Huge || i.Len != 11 {
+		return fmt.Errorf("wrapped int")
+	}
+	if i, ok := ReadInt(AppendIntWrapped(nil, 5, 0x20, 40, 3, 1), 5); !ok || i.Huge || i.V != 40+1<<21 || i.Len != 5 {
+		return fmt.Errorf("wrapped int small")
+	}
 	if len(StaticTable) != 61 || StaticTable[1] != p(":method", "GET") || StaticTable[60] != p("www-authenticate", "") || StaticTable[15] != p("accept-encoding", "gzip, deflate") {
 		return fmt.Errorf("static table")
 	}
